@@ -11,9 +11,9 @@
 pub enum Ev {
     Lit(Seq<char>),
     With(WithClause), Distinct(SelectDistinct), SelExpr(SelectExpr), TRef(TableRef), IndexHints, TableSample, Join(JoinExpr),
-    Cond(Seq<char>, ConditionHolder), Expr(SimpleExpr), Union(UnionType, SelectStatement), Order(OrderExpr), LimitOffset,
+    Cond(Seq<char>, ConditionHolder), Expr(SimpleExpr), Union(UnionType, SelectStatement), Order(OrderExpr), FieldOrder(OrderExpr), LimitOffset,
     Lock(LockClause), Iden(DynIden), Window(WindowStatement),
-    Output(Option<ReturningClause>), Returning(Option<ReturningClause>), UpdJoin, UpdFrom, UpdCond, UpdColumn(DynIden), UpdOrderBy, UpdLimit, DelOrderBy, DelLimit,
+    Output(Option<ReturningClause>), Returning(Option<ReturningClause>), OcKeywords, OcTarget(Vec<OnConflictTarget>), OcAction(Option<OnConflictAction>), ColRef(ColumnRef), InsertKw(bool), DefaultValues(u32), OnConflict(Option<OnConflict>), Select(SelectStatement), UpdJoin, UpdFrom, UpdCond, UpdColumn(DynIden), UpdOrderBy, UpdLimit, DelOrderBy, DelLimit,
 }
 pub trait VWrite {
     spec fn tr(&self) -> Seq<Ev>;
